@@ -65,6 +65,16 @@ CHECKS = {
    text="Region.v proves for every construction history: each region's parent was created earlier, walking outward reaches a parentless (global) region in at most index+1 steps, only unit roots are global, every constructor encloses its region in the one it was given with the documented owner (class, union, enum, namespace, closure, block, mapping, lambda, handler body), a handler body is enclosed by a region binding exactly the exception parameter which is enclosed by the region enclosing the guarded block; member positions equal indices (Scope.v). Scripts of up to 200 (2500) operations, random and deeply nested, are run on the library and on the extracted model.",
    note="Trusted: Coq kernel, extraction, region_driver, ASan. Modelled: region identity as creation index; Requires/morphism/where regions have no owner in the library and in the model.",
    ref="DESIGN.md §6 C12"),
+ "C19": dict(
+   technique="Coq proof of allocation/release accounting (arena pool chain is a permutation of the pools allocated, by induction over allocation histories; a red-black container holds exactly the nodes it allocated, via the C08/Unify refinement; ledger theorem: no leak, no double free) + destructor facts re-read from the AST; ASan/UBSan/LeakSanitizer runs of build-print-destroy cycles — PARTIAL",
+   text="Proved on the model: every pool ever allocated (oversize splices included) is on the chain the arena destructor walks, once; the nodes reachable from a container's root are exactly the allocated ones; with both destructors present the released cells are a duplicate-free permutation of the allocated cells. Properties_C19.v also checks on the current source that rb_tree::container and string::arena have user destructors (the container's calls destroy_node) and that every other store is a standard container. The driver builds, prints and destroys 12 (600) Lexicons in one ASan process and runs a recoverable LeakSanitizer check after each.",
+   note="PARTIAL: 'no operation reads or writes outside live objects' is a runtime fact observed by ASan on the runs, not proved. Standard containers are trusted to release their elements.",
+   ref="DESIGN.md §6 C19, §12"),
+ "C20": dict(
+   technique="Coq proof by computation over the table of all static-storage objects regenerated from the five TUs (all constexpr/const), plus a frame/interleaving theorem on the Lexicon model; ThreadSanitizer runs with per-thread Lexicons compared against sequential runs — PARTIAL",
+   text="c20_no_mutable_statics: in the current source every namespace-scope, static-member and function-local static object is constexpr or const and none is thread_local (a function-local cache or counter added anywhere breaks this). c20_interleaving_irrelevant / c20_frame: on the model each Lexicon obtains exactly the answers it would obtain alone and operations on one Lexicon leave the others untouched; constants are never created by requests. 2..16 (32) threads with their own Lexicons build and print under TSan; traces equal the sequential ones.",
+   note="PARTIAL: data-race freedom of the compiled code under every interleaving is observed (TSan), not proved.",
+   ref="DESIGN.md §6 C20, §12"),
 }
 
 NOT_YET = {}
